@@ -153,6 +153,34 @@ def _run(ctx, e2e):
         # ---- metamorphic: the phonon part does not depend on the tabulated static values ------------------
         if i % 3 == 0 and nontriv:
             metamorphic_static(ctx, e2e, rng, calc, ds, cfg, wd, case_id, cls)
+        # ---- history: the same files again in the same process under other grid settings (same NTV, other volume_ratio / T grid):
+        #      anything remembered from the first calculation must not leak into the second
+        if i % 4 == 2 and nontriv:
+            import copy
+            cfg2 = copy.deepcopy(cfg)
+            q2 = cfg2["qha"]["settings"]
+            q2["volume_ratio"] = {1.05: 1.2, 1.2: 1.4, 1.4: 1.05}.get(q2["volume_ratio"], 1.2)
+            q2["T_MIN"], q2["DT"] = float(rng.choice([0, 50])), float(rng.choice([20, 150]))
+            q2["DT_SAMPLE"] = q2["DT"]
+            try:
+                WF.write_dataset(ds, cfg2, wd)
+                p_lo, p_hi, _ = WF.probe_pressure_range(ds, cfg2, wd)
+                if p_hi - p_lo > 1.0:
+                    WF.place_pressures(rng, cfg2, p_lo, p_hi, inside=True)
+                    path2 = WF.write_dataset(ds, cfg2, wd, settings_name="settings2.yaml")
+                    calc2, exc2 = e2e.run(path2, case_id + "-second-config", spectrum=ds.spec)
+                    ctx.evaluation("second-configuration-same-files", (i, "second"), sample={"first": sample["grid"], "second": {k: q2[k] for k in ("NT", "DT", "T_MIN", "NTV", "volume_ratio")}})
+                    if exc2 is not None:
+                        e2e.report_construction_failure(exc2, case_id, "second-configuration", {"config": cfg2})
+                    else:
+                        judge_dataset(ctx, e2e, calc2, ds, cfg2, wd, case_id + "-second-config", cls + "|second-config", sample)
+            except A.FrameProblem as exc:
+                ctx.violation("shear-frame:" + str(exc).split(" for ")[0][:40], str(exc), case_id, sample)
+            except Exception as exc:
+                if classify_exception(exc) == "code":
+                    ctx.violation(f"second-configuration-raises:{type(exc).__name__}:{exc_site(exc)}", exc_text(exc), case_id, sample)
+                else:
+                    ctx.harness_error("C05.second-config", exc)
 
 
 def judge_dataset(ctx, e2e, calc, ds, cfg, wd, case_id, cls, sample):
